@@ -72,6 +72,10 @@ func runC05(c *Ctx) bool {
 		d, n := gen.DeepMixed(depth)
 		shapes = append(shapes, [2]any{d, n})
 	}
+	{
+		d, n := gen.LongDup() // repeated sibling names of 63 ... 255 bytes
+		shapes = append(shapes, [2]any{d, n})
+	}
 	for k, sh := range shapes {
 		idx := base + nRand + k
 		if !c.Mine(idx) {
@@ -132,6 +136,7 @@ func evalC05(c *Ctx, cs *Case) {
 				}
 				return gtree.Walk(MDReader(doc), rec.Callback, bo...)
 			})
+			rec.Seal(&o)
 			c.Eval(gen.HashString(fkey+name+strconv.Itoa(bi)+sp.String()), nontrivial)
 			c.SetAdd("entries", name)
 			c05Judge(viol, name, rec.Rows, want, lines, o, bi)
@@ -155,12 +160,13 @@ func evalC05(c *Ctx, cs *Case) {
 					}
 					return gtree.WalkProgrammably(g, rec.Callback, bo...)
 				})
+				rec.Seal(&o)
 				c.Eval(gen.HashString(fkey+name+strconv.Itoa(bi)+root.Name+strconv.Itoa(off)), nontrivial)
 				c.SetAdd("entries", name)
 				c05Judge(viol, name, rec.Rows, wantR, linesR, o, bi)
 			}
 			for ai, name := range []string{"WalkIterFromRoot", "WalkIterProgrammably(alias)"} {
-				var rows []model.Row
+				irec := NewRowRec()
 				g := BuildRoot(root)
 				o := Guard(func() error {
 					seq := gtree.WalkIterFromRoot(g, bo...)
@@ -171,10 +177,12 @@ func evalC05(c *Ctx, cs *Case) {
 						if err != nil {
 							return err
 						}
-						rows = append(rows, model.Row{Row: wn.Row(), Branch: wn.Branch(), Name: wn.Name(), Level: int(wn.Level()), Path: wn.Path(), HasChild: wn.HasChild()})
+						irec.Callback(wn) // records the facts and keeps the yielded node
 					}
 					return nil
 				})
+				irec.Seal(&o)
+				rows := irec.Rows
 				c.Eval(gen.HashString(fkey+name+strconv.Itoa(bi)+root.Name+strconv.Itoa(off)), nontrivial)
 				c.SetAdd("entries", name)
 				c05Judge(viol, name, rows, wantR, linesR, o, bi)
@@ -272,6 +280,7 @@ func evalC05(c *Ctx, cs *Case) {
 					return nil
 				})
 			}
+			rec.Seal(&o)
 			rows := append([]model.Row(nil), rec.Rows...)
 			for i := range rows {
 				rows[i].Path = ""
@@ -291,6 +300,54 @@ func evalC05(c *Ctx, cs *Case) {
 				}
 				viol(name, "rows.differ-from-model", "after-failed-call", map[string]any{"tree": gen.Spell(hf, gen.Canonical), "earlier_errors": []string{errStr(failed[0]), errStr(failed[1])}, "got": got, "want": exp, "err": errStr(o.Err)})
 				break
+			}
+		}
+	}
+	// --- a consumer that asks each node for ONE thing only: leaves for their Path, the others for
+	// their Row (nothing may depend on the consumer having asked the ancestors first)
+	for ri, root := range merged {
+		if ri > 1 {
+			break
+		}
+		want := model.Rows(model.Forest{root}, model.DefaultBranch)
+		for form := 0; form < 2; form++ {
+			var got []string
+			g := BuildRoot(root)
+			ask := func(wn *gtree.WalkerNode) {
+				if wn.HasChild() {
+					got = append(got, "row:"+wn.Row())
+				} else {
+					got = append(got, "path:"+wn.Path())
+				}
+			}
+			name := "WalkFromRoot(selective accessors)"
+			var o Outcome
+			if form == 0 {
+				o = Guard(func() error { return gtree.WalkFromRoot(g, func(wn *gtree.WalkerNode) error { ask(wn); return nil }) })
+			} else {
+				name = "WalkIterFromRoot(selective accessors)"
+				o = Guard(func() error {
+					for wn, err := range gtree.WalkIterFromRoot(g) {
+						if err != nil {
+							return err
+						}
+						ask(wn)
+					}
+					return nil
+				})
+			}
+			var exp []string
+			for _, w := range want {
+				if w.HasChild {
+					exp = append(exp, "row:"+w.Row)
+				} else {
+					exp = append(exp, "path:"+w.Path)
+				}
+			}
+			c.Eval(gen.HashString(fkey+"selective"+root.Name+strconv.Itoa(form)), true)
+			c.Count("selective_accessor_walks", 1)
+			if o.Panic != nil || o.Err != nil || !sameStrings(got, exp) {
+				viol(name, "rows.differ-from-model", "selective-accessors", map[string]any{"got": got, "want": exp, "err": errStr(o.Err)})
 			}
 		}
 	}
